@@ -147,8 +147,24 @@ type Report struct {
 	Hist        map[string]int `json:"hist"`
 	Samples     []string       `json:"samples"`
 	Violations  []Violation    `json:"violations"`
+	ViolationsTotal int        `json:"violations_total"`
 	Rule        string         `json:"rule"`
 	WallS       float64        `json:"wall_s"`
+}
+
+// violClass maps a violation message to a coarse class: first 60 bytes with digits and hex runs removed.
+func violClass(s string) string {
+	var b strings.Builder
+	for _, r := range s {
+		if b.Len() >= 60 {
+			break
+		}
+		if (r >= '0' && r <= '9') || (r >= 'a' && r <= 'f') {
+			continue
+		}
+		b.WriteRune(r)
+	}
+	return b.String()
 }
 
 // safeExec runs Exec with recover and a watchdog.
@@ -244,6 +260,7 @@ func execAndWrite(p *Prop, tier string, seed uint64, dir string, lines []string,
 	win, wout := bufio.NewWriterSize(fin, 1<<20), bufio.NewWriterSize(fout, 1<<20)
 	rep := Report{Property: p.ID, Tier: tier, Seed: seed, Hist: map[string]int{}, Rule: p.Rule, Samples: []string{}, Violations: []Violation{}}
 	seen := map[string]struct{}{}
+	perClass := map[string]int{}
 	for i, l := range lines {
 		o := outs[i]
 		rep.Evaluations++
@@ -262,8 +279,15 @@ func execAndWrite(p *Prop, tier string, seed uint64, dir string, lines []string,
 			wout.WriteByte('\n')
 			rep.ModelLines++
 		}
-		if o.Viol != "" && len(rep.Violations) < 50 {
-			rep.Violations = append(rep.Violations, Violation{Line: l, What: o.Viol, Go: o.Go})
+		if o.Viol != "" {
+			// at most 8 violations per class (message with digits/hex stripped) and 400 overall, so that one
+			// frequent (possibly known) failure cannot crowd a different one out of the report
+			cls := violClass(o.Viol)
+			if perClass[cls] < 8 && len(rep.Violations) < 400 {
+				rep.Violations = append(rep.Violations, Violation{Line: l, What: o.Viol, Go: o.Go})
+			}
+			perClass[cls]++
+			rep.ViolationsTotal++
 		}
 		if len(rep.Samples) < 5 && i%(len(lines)/5+1) == 0 {
 			s := l
